@@ -12,6 +12,13 @@ fn main() {
         std::process::exit(2);
     }
     panic::set_hook(Box::new(|_| {}));
+    if args[0] == "--deep-html" {
+        // child process of the `deep` enumeration: one operation on a document of the given nesting depth, on a 2 MiB stack
+        let depth: usize = args[1].parse().unwrap();
+        let op = args[2].clone();
+        let ok = enumcheck::deep::child(depth, &op);
+        std::process::exit(if ok { 0 } else { 3 });
+    }
     if args[0] == "--enum" {
         panic::set_hook(Box::new(|_| {}));
         let tier = args.get(2).map(|s| s.as_str()).unwrap_or("quick");
